@@ -22,7 +22,7 @@ RULE = (
     "marker, column a non-negative int within the line).  For token-built texts the independent Earley recognizer "
     "of C02 decides well-formedness and an ill-formed text must raise JaqalParseError specifically; texts with an "
     "illegal character or an unterminated block comment must raise JaqalParseError too.  histories: sequences of "
-    "2-6 texts (failing and succeeding, incl. relative pulse imports) are processed in ONE process; every text's "
+    "2-8 texts (failing and succeeding, incl. relative pulse imports) are processed in ONE process; every text's "
     "outcome (exception type and message, or generated text + repr) must equal its outcome in a pristine "
     "interpreter (a freshly spawned python that imports only the entry point and has not imported "
     "importlib.util).  Non-trivial = the input is rejected, or the history interleaves a failing and a succeeding "
@@ -226,6 +226,8 @@ POOL_TEXTS = [
     ("parse-rel", "from vlib.pulses.moda usepulses *\nregister q[1]\nXA q[0]\n"),
     ("parse-rel", "from nosuch.module usepulses *\nregister q[1]\n"),
     ("parse-rel", "register q[1]\nXA q[0]\n"),
+    ("parse-rel", "from moda usepulses *\nregister q[2]\nXA q[0]\n"),
+    ("parse-rel", "from modb usepulses *\nregister q[2]\nXB q[0]\n"),
     ("run", "from .moda usepulses *\nregister q[2]\nsubcircuit { XA q[1] }\n"),
     ("run", "from .moda usepulses *\nregister q[2]\nXA q[1]\n"),
     ("run", "from vlib.pulses.modb usepulses *\nregister q[2]\nloop 2 { prepare_all; GP q[0] q[1]; measure_all }\n"),
@@ -243,7 +245,7 @@ def _pristine(entry, text):
 
 
 def _history_case(ch):
-    n = ch.int(2, 6)
+    n = ch.int(2, 8)
     items = []
     for _ in range(n):
         if ch.int(0, 5) == 0:
